@@ -11,18 +11,20 @@ E2E_NOTE = ("Trusted: rustc/cargo, the installed nightly's rustdoc JSON (stand-i
 
 CHECKS = {
     "C01": dict(engine="e2e", cat="exploration", tech="bounded-exhaustive blueprint enumeration through the real pavexc + rustc",
-                text="Every blueprint of the DI/DIMW/MW/ERR/MIX/LT/PROGS families (all dependency-graph shapes, lifecycles, cloning policies, "
-                     "middleware words, error plumbing up to the stated bounds) that the real `pavexc generate` accepts is compiled "
+                text="Every blueprint of the DI/DIMW/MW/ERR/MIX/LT/PROGS/SRC families (all dependency-graph shapes, lifecycles, cloning policies, "
+                     "middleware words, error plumbing, prebuilt and configuration types as value sources, up to the stated bounds) that the real `pavexc generate` accepts is compiled "
                      "by rustc with the emitted manifest; any compile error of an accepted program is a violation.",
                 ref="§4 C01"),
     "C02": dict(engine="e2e", cat="exploration", tech="bounded-exhaustive blueprint enumeration vs reference class predicate",
                 text="Every enumerated blueprint that the reference model places inside the rule-abiding class (narrower than the "
-                     "compiler's own acceptance) must be accepted by the real pavexc with no error diagnostic.",
+                     "compiler's own acceptance) must be accepted by the real pavexc with no error diagnostic (incl. the SRC family: prebuilt / "
+                     "configuration types under every cloning policy and consumer set, and the ownership cells of BADSIG whose values are all clonable).",
                 ref="§4 C02"),
     "C03": dict(engine="e2e", cat="exploration", tech="bounded-exhaustive program x request x fault-plan enumeration on the generated server",
                 text="For every accepted enumerated blueprint the generated server is run on loopback; for every request and "
                      "single-fault plan the construction/clone/consumption events are checked against the lifecycle rules "
-                     "(singleton once at startup, request-scoped once per request and shared, transient per injection).",
+                     "(singleton once at startup, request-scoped once per request and shared, transient per injection); prebuilt and configuration "
+                     "values (SRC family): one instance per process, supplied by the application, seen by every consumer.",
                 ref="§4 C03"),
     "C04": dict(engine="e2e", cat="exploration", tech="bounded-exhaustive program x request enumeration on the generated server",
                 text="Same executions as C03; every injected value must have been built by the constructor the reference "
@@ -90,8 +92,10 @@ CHECKS = {
                 ref="§4 C14, §10.4", note="TCP segmentation below write boundaries and hyper's own re-framing are not controlled."),
     "C15": dict(engine="rt_extract", cat="exploration", tech="bounded-exhaustive enumeration of values x encodings x target shapes vs reference decoder",
                 text="All strings up to the bound over a sharp alphabet, every per-character encoding choice, every field/wire "
-                     "order, malformed inputs: decoded exactly once, bound by name, or the documented error; never a panic.",
-                ref="§4 C15", note="Reference decoder in engines/rt_extract/src/refmodel.rs; paths go through a real matchit router."),
+                     "order, malformed inputs: decoded exactly once, bound by name, or the documented error; never a panic. JSON nesting dimension: "
+                     "recursive / self-describing targets x documents nested up to 250 000 (quick) / 1 000 000 (thorough) levels, one child process "
+                     "per case (a stack overflow aborts the process): exact value, or DeserializationError beyond 100 containers, nothing else.",
+                ref="§4 C15, §11.3", note="Reference decoder in engines/rt_extract/src/refmodel.rs; paths go through a real matchit router."),
     "C16": dict(engine="server_mc", cat="model_checking",
                 tech="controlled-scheduler exploration of the real acceptor/worker threads at checkpoints (hook H2): exhaustive BFS of a shadow model, every maximal schedule replayed against the implementation",
                 text="All orderings of checkpoint releases and environment actions (connect, send, open gate, shutdown call, late connect) for "
